@@ -1129,7 +1129,13 @@ func (k *c19) replay() {
 	all := append(intTargets(), encT[bool, bool]("bool", kindBoolean, 0x01), cbBool(),
 		encT[zasn1.ObjectIdentifier, gasn1.ObjectIdentifier]("ObjectIdentifier", kindOID, 0x06), cbOID(),
 		encT[zasn1.BitString, gasn1.BitString]("BitString", kindBitString, 0x03), cbBitString(), cbBitStringBytes(),
-		encRaw(), cbAnyElement(), cbGenTime())
+		encRaw(), cbAnyElement(), cbGenTime(),
+		encT[[]byte, []byte]("[]byte", kindHeader, 0x04), encT[[]zasn1.RawValue, []gasn1.RawValue]("[]RawValue", kindHeader, 0x30))
+	for _, tag := range []byte{0x04, 0x30, 0xa3} {
+		for _, w := range []string{"ReadASN1", "ReadASN1Element", "ReadASN1Bytes", "ReadOptionalASN1"} {
+			all = append(all, cbTagged(w, tag))
+		}
+	}
 	for _, t := range all {
 		if t.name == in.Decoder {
 			k.c.Eval(1)
